@@ -14,6 +14,8 @@ ENGINES = [
      "kind_free_text": "implementation-shaped TLA+ model of tokenize_and_analyze and check_parsed_token_preconditions; TLC equivalence with the abstract lexer on all short texts; call-form refinement on trees"},
     {"name": "tracker-model", "path": "spec/Tracker.tla spec/MC_Sched.tla spec/MC_Chain.tla spec/Judge_Sched.tla", "serves_properties": ["C14"],
      "kind_free_text": "bit-level model of NumberTracker; enumeration of all application orders; judge of recorded tracker answers"},
+    {"name": "value-semantics", "path": "spec/ValSem.tla spec/MC_Val.tla spec/Judge_Val.tla", "serves_properties": ["C16", "C17"],
+     "kind_free_text": "TLA+ semantics of the mixed value type; TLC lemma for its overflow-free integer formulas; enumeration of the operator x catalogue grid; judge"},
     {"name": "recorder", "path": "harness/", "serves_properties": ["C01", "C02", "C03"],
      "kind_free_text": "Rust crate driving the real exmex with a free term algebra as data type and run-time operator tables; records observations as ndjson"},
     {"name": "judge", "path": "spec/Judge_Expr.tla", "serves_properties": ["C01", "C02", "C03"],
@@ -58,5 +60,13 @@ CLAIMS = {
     "C04": dict(category=MC, technique="TLA+ variable rules (sorted distinct names, bare = braced) + TLC enumeration of name sequences replayed through 5 forms x 4 evaluation variants x all slice lengths with index-revealing values, TLC-judged",
                 text="Every text over the order-stressing name pool up to 3 (quick) / 4 (thorough) names: variable list = sorted distinct names in all five forms; strict evaluation succeeds exactly at the right length, relaxed from the right length on, never a panic; the k-th value is the term Var(name_k) so a wrong binding is visible in the value. Random expressions with up to 40 variables likewise.",
                 note="Trusted: TLC, Chars.StrLess as Rust's byte order on UTF-8 (= code point order). Derived-expression variable lists are judged in C09-C11."),
+    "C16": dict(category=MC, technique="TLA+ value semantics (ValSem: width-parametric checked integer arithmetic, IEEE class algebra, typing/error rules) with TLC-checked arithmetic lemma + full operator x catalogue product replayed on the real operators (3 routes) and TLC-judged + random traces over a mirror of the value table",
+                text="For widths 8, 16 and 32: every binary operator on every ordered pair and every unary operator on every value of a 39-value catalogue (MIN, MAX, 0, -1, shift counts, NaN, inf, -0.0, huge, arrays of length 0-5, none, error) plus random operands; "
+                     "the required result (exact value, error value, kind) comes from ValSem and is compared for the direct function call, for variables of parse_val and for folded literals. Precedence over the value table is judged on random expressions with the table mirrored from make() and only truly associative-commutative operators regroupable.",
+                note="Trusted: TLC, ValSem.tla (its integer formulas are checked against plain arithmetic on all pairs of a 7/8-bit width). Floats exact only on quarter units of small magnitude; inexact results by kind and class."),
+    "C17": dict(category=MC, technique="same TLC-enumerated grid as C16: every outcome must be a value (no panic) and the listed problem inputs must give an error value, judged by TLC with ValSem",
+                text="No panic for any operator x operand pair of the catalogue at widths 8, 16, 32 and 64 (named wide integers: 2^40, i64::MIN/MAX) through all three routes incl. parse-time folding, nor for random operands; "
+                     "invalid casts, -MIN, abs(MIN), MIN % -1, float ^ unrepresentable exponent and wrong operand kinds must be error values.",
+                note="Trusted: TLC, ValSem.tla; recorder built with overflow checks so that wrapping arithmetic cannot hide."),
 }
 NOT_YET = {}
